@@ -1926,6 +1926,7 @@ func (fr *Frame) loopEnv(li *loopInfo, st *State, phiVals map[*ssa.Phi]Term) *Sp
 		}
 		return fr.lookupLocal(name, li.header, st, li)
 	}
+	env.lookupAddr = fr.lookupLocalAddr
 	env.rangeOf = func(ord int) (string, bool) {
 		for _, l := range fr.loops {
 			if (ord == 0 && l != li) || (ord != 0 && l.ordinal != ord) {
@@ -2144,4 +2145,19 @@ func (fr *Frame) ifaceEq(st *State, X, Y ssa.Value, a, c Term) Term {
 	tagsEq := Eq(ITag(a), ITag(c))
 	boxed := App(SBool, "boxedtag", ITag(a))
 	return Or(Eq(a, c), And(tagsEq, boxed, App(SBool, "ifacevaleq", a, c)))
+}
+
+// lookupLocalAddr: the cell of a source-level local that lives in memory (address taken or
+// captured), for &x in invariants and call-site clauses.
+func (fr *Frame) lookupLocalAddr(name string) (Term, types.Type, bool) {
+	for _, b := range fr.fn.Blocks {
+		for _, in := range b.Instrs {
+			if al, ok := in.(*ssa.Alloc); ok && al.Comment == name {
+				if t, ok := fr.vals[al]; ok {
+					return t, U(al.Type()).(*types.Pointer).Elem(), true
+				}
+			}
+		}
+	}
+	return Term{}, nil, false
 }
